@@ -386,7 +386,10 @@ type WireCase struct {
 }
 
 type wireStats struct {
-	PlainPeer bool
+	RTCPOnWire  int
+	NoMulticast bool // the multicast variant could not be run on this machine
+	Groups      int  // multicast groups listened to
+	PlainPeer   bool
 	Delivered int
 	OnWire    int
 	Tampered  int
@@ -399,6 +402,8 @@ func RunWire(c WireCase) error {
 }
 
 var wireMarker = []byte("VERIF-CLEAR-TEXT-VERIF-CLEAR-TEXT")
+
+const wireReportPeriod = 40 * time.Millisecond
 
 func runWire(c WireCase) (*wireStats, error) {
 	st := &wireStats{}
@@ -429,7 +434,17 @@ func runWire(c WireCase) (*wireStats, error) {
 		}
 	}
 	desc := SimpleDesc([]int{1, 1})
-	w, err := StartWorld(WorldCfg{UDP: true, TLS: true, Desc: desc, ListenPacket: tapListenPacket(log, "s2c"), ReadTimeout: 5 * time.Second, WriteTimeout: 5 * time.Second})
+	wcfg := WorldCfg{UDP: true, TLS: true, Desc: desc, ListenPacket: tapListenPacket(log, "s2c"), ReadTimeout: 5 * time.Second, WriteTimeout: 5 * time.Second,
+		ReportPeriod: wireReportPeriod} // the reports the library generates by itself are part of what is on the wire
+	if c.Reader == "mcast" {
+		// multicast delivery needs an interface that does multicast; without one the variant is skipped
+		if multicastIP() == "" {
+			st.NoMulticast = true
+			return st, nil
+		}
+		wcfg.Multicast, wcfg.IP = true, multicastIP()
+	}
+	w, err := StartWorld(wcfg)
 	if err != nil {
 		return st, nil
 	}
@@ -447,25 +462,41 @@ func runWire(c WireCase) (*wireStats, error) {
 			pp = protoPtr(gortsplib.ProtocolUDP)
 		case "tcp":
 			pp = protoPtr(gortsplib.ProtocolTCP)
+		case "mcast":
+			pp = protoPtr(gortsplib.ProtocolUDPMulticast)
 		}
 		cl := NewClient(w.Scheme, w.Host, pp)
 		cl.ReadTimeout = 60 * time.Second
 		cl.InitialUDPReadTimeout = 300 * time.Millisecond
 		cl.ListenPacket = tapListenPacket(log, "c2s")
 		cl.DialTLSContext = tapDialTLS(log)
+		gortsplib.VerifSetClientReportPeriods(cl, wireReportPeriod, wireReportPeriod)
 		return cl
 	}
 	rd := newClient(c.Reader)
 	var switched atomic.Bool
 	rd.OnTransportSwitch = func(error) { switched.Store(true) }
 	var decodeErrs atomic.Int64
-	rd.OnDecodeError = func(error) { decodeErrs.Add(1) }
+	var lastDecodeErr atomic.Value
+	rd.OnDecodeError = func(err error) { decodeErrs.Add(1); lastDecodeErr.Store(err.Error()) }
 	var setupProfiles sync.Map
 	rd.OnRequest = func(req *base.Request) {
 		if req.Method == base.Setup {
 			var th headers.Transport
 			if th.Unmarshal(req.Header["Transport"]) == nil {
 				setupProfiles.Store(fmt.Sprintf("%v/%v", th.Protocol, th.Profile), th.Profile)
+			}
+		}
+	}
+	var mcMu sync.Mutex
+	var mcTransports []headers.Transport
+	rd.OnResponse = func(res *base.Response) {
+		if tv, ok := res.Header["Transport"]; ok && res.StatusCode == base.StatusOK {
+			var th headers.Transport
+			if th.Unmarshal(tv) == nil {
+				mcMu.Lock()
+				mcTransports = append(mcTransports, th)
+				mcMu.Unlock()
 			}
 		}
 	}
@@ -479,7 +510,31 @@ func runWire(c WireCase) (*wireStats, error) {
 		return st, fmt.Errorf("harness: reader DESCRIBE: %v", err)
 	}
 	if err := rd.SetupAll(sd.BaseURL, sd.Medias); err != nil {
+		if c.Reader == "mcast" {
+			st.NoMulticast = true
+			return st, nil // multicast cannot be set up here: nothing to judge
+		}
 		return st, fmt.Errorf("harness: reader SETUP: %v", err)
+	}
+	if c.Reader == "mcast" {
+		// a passive member of every group the session was given: what it reads is what is on the wire
+		mcMu.Lock()
+		groups := append([]headers.Transport(nil), mcTransports...)
+		mcMu.Unlock()
+		for _, th := range groups {
+			if th.Destination2 == nil || th.Ports == nil || net.ParseIP(*th.Destination2) == nil {
+				continue
+			}
+			for _, port := range []int{th.Ports[0], th.Ports[1]} {
+				stop, err := sniffMulticast(log, multicastIP(), net.ParseIP(*th.Destination2), port, "s2c")
+				if err != nil {
+					st.NoMulticast = true
+					return st, nil
+				}
+				defer stop()
+			}
+			st.Groups++
+		}
 	}
 	var got sync.Map // seq -> payload
 	var nGot atomic.Int64
@@ -596,9 +651,9 @@ func runWire(c WireCase) (*wireStats, error) {
 			pub.WritePacketRTP(pubDesc.Medias[0], &rtp.Packet{Header: rtp.Header{Version: 2, PayloadType: pubDesc.Medias[0].Formats[0].PayloadType(), SequenceNumber: uint16(100 + i), Timestamp: uint32(i) * 3000}, Payload: payload(i)}) //nolint:errcheck
 		}
 		if i%8 == 7 {
-			w.Stream.WritePacketRTCP(desc.Medias[0], &rtcp.ReceiverReport{SSRC: 7, ProfileExtensions: append([]byte(nil), wireMarker[:32]...)}) //nolint:errcheck
+			w.Stream.WritePacketRTCP(desc.Medias[0], &rtcp.ApplicationDefined{SubType: 1, SSRC: 7, Name: "VRIF", Data: append([]byte(nil), wireMarker[:32]...)}) //nolint:errcheck
 			if pub != nil {
-				pub.WritePacketRTCP(pubDesc.Medias[0], &rtcp.ReceiverReport{SSRC: 7, ProfileExtensions: append([]byte(nil), wireMarker[:32]...)}) //nolint:errcheck
+				pub.WritePacketRTCP(pubDesc.Medias[0], &rtcp.ApplicationDefined{SubType: 1, SSRC: 7, Name: "VRIF", Data: append([]byte(nil), wireMarker[:32]...)}) //nolint:errcheck
 			}
 			time.Sleep(time.Millisecond)
 		}
@@ -625,10 +680,22 @@ func runWire(c WireCase) (*wireStats, error) {
 		}
 	}
 
+	// the reports that server, stream, multicast writer and clients generate on their own timers
+	time.Sleep(3*wireReportPeriod + 10*time.Millisecond)
+
 	// ---- judgement ----
 	pk := log.snapshot()
 	st.OnWire = len(pk)
 	for _, p := range pk {
+		if p.isRTCP() && len(p.Whole) >= 4 {
+			st.RTCPOnWire++
+			// a protected RTCP packet ends with the SRTCP index and the authentication tag (14 bytes or more) after what
+			// the first header declares; a packet that ends exactly there has no such trailer
+			if declared := (int(p.Whole[2])<<8 | int(p.Whole[3]) + 1) * 4; declared == p.Size {
+				return st, fmt.Errorf("an RTCP packet (type %d, %d bytes) travels without SRTCP trailer, i.e. in clear, on the wire of a secure session (%s, %s, port/channel %d/%d; reader %s)",
+					p.Whole[1], p.Size, p.Via, p.Dir, p.ToPort, p.Chan, c.Reader)
+			}
+		}
 		if bytes.Contains(p.Whole, wireMarker[:16]) {
 			kind := "RTP"
 			if p.isRTCP() {
@@ -692,7 +759,11 @@ func runWire(c WireCase) (*wireStats, error) {
 	if verr != nil {
 		return st, verr
 	}
-	if c.Reader != "udp" && st.Delivered < c.Packets {
+	if n := decodeErrs.Load(); n > 0 && st.Tampered == 0 && c.Reader != "auto" {
+		// (during an automatic switch packets of the abandoned session may still arrive: not judged there)
+		return st, fmt.Errorf("the reader of a secure session reported %d packets it could not decrypt or authenticate although nothing was altered in transit (reader %s; last: %v)", n, c.Reader, lastDecodeErr.Load())
+	}
+	if (c.Reader == "tcp" || c.Reader == "auto") && st.Delivered < c.Packets {
 		return st, fmt.Errorf("only %d of %d packets reached the reader over a reliable transport", st.Delivered, c.Packets)
 	}
 	return st, nil
